@@ -80,39 +80,31 @@ theorem c01_defaults (p : SessParams) (r : RouteReq) (u : UpdateSem) (h : Meets 
     (firstOf r.attrs 5 = none → p.localAs = p.peerAs → reportAttr (paramsOf p) u 5 = some (.localPref 100)) ∧
     (p.localAs ≠ p.peerAs → reportAttr (paramsOf p) u 5 = none) := by
   obtain ⟨_, _, _, hattr, _⟩ := h
-  have same_some : ∀ (x : Option AttrVal) (v : AttrVal), SameOpt x (some v) →
-      (∀ w, SameVal w v → w = v) → x = some v := by
-    intro x v hx hv
-    cases x with
-    | none => exact absurd hx (by simp [SameOpt])
-    | some w => rw [hv w hx]
   refine ⟨?_, ?_, ?_, ?_, ?_⟩
   · intro h1
     have := hattr 1 (by decide)
     simp only [want, wantOrigin, h1, if_true] at this
-    exact same_some _ _ this (fun w hw => by cases w <;> simp_all [SameVal])
+    exact sameOpt_some_eq _ _ this (fun y h => by cases h) (fun y h => by cases h) (fun y h => by cases h)
   · intro h2 hi
     have := hattr 2 (by decide)
     simp only [want, wantPath, h2, show ¬ (2 = 1) by decide, if_false, if_true, ibgp, hi, beq_self_eq_true] at this
-    exact same_some _ _ this (fun w hw => by cases w <;> simp_all [SameVal])
+    exact sameOpt_some_eq _ _ this (fun y h => by cases h) (fun y h => by cases h) (fun y h => by cases h)
   · intro h2 hi
     have := hattr 2 (by decide)
     have hb : (p.localAs == p.peerAs) = false := by simpa using hi
     simp only [want, wantPath, h2, show ¬ (2 = 1) by decide, if_false, if_true, ibgp, hb, Bool.false_eq_true] at this
-    exact same_some _ _ this (fun w hw => by cases w <;> simp_all [SameVal])
+    exact sameOpt_some_eq _ _ this (fun y h => by cases h) (fun y h => by cases h) (fun y h => by cases h)
   · intro h5 hi
     have := hattr 5 (by decide)
     simp only [want, wantLocalPref, h5, show ¬ (5 = 1) by decide, show ¬ (5 = 2) by decide, show ¬ (5 = 4) by decide,
       if_false, if_true, ibgp, hi, beq_self_eq_true] at this
-    exact same_some _ _ this (fun w hw => by cases w <;> simp_all [SameVal])
+    exact sameOpt_some_eq _ _ this (fun y h => by cases h) (fun y h => by cases h) (fun y h => by cases h)
   · intro hi
     have := hattr 5 (by decide)
     have hb : (p.localAs == p.peerAs) = false := by simpa using hi
     simp only [want, show ¬ (5 = 1) by decide, show ¬ (5 = 2) by decide, show ¬ (5 = 4) by decide,
       if_false, if_true, ibgp, hb, Bool.false_eq_true] at this
-    cases hx : reportAttr (paramsOf p) u 5 with
-    | none => rfl
-    | some w => rw [hx] at this; exact absurd this (by simp [SameOpt])
+    exact sameOpt_none _ this
 
 /-- **next-hop self.** A message that meets a `next-hop self` request announces the route with the
     local address of the session; and the encoder resolves `self` to that address whenever the session
@@ -171,11 +163,23 @@ theorem c01_raised_iff (p : SessParams) (r : RouteReq) :
     simp only [defaultPathRaises_false, Bool.false_eq_true, if_false]
     constructor
     · intro hr
-      split at hr <;> try (cases hr)
-      split at hr <;> try (cases hr)
-      split at hr
-      · split at hr <;> cases hr
-      · split at hr <;> cases hr
+      by_cases c1 : p.msgSize < 23 + (attrBytes p r nh).length
+      · simp [c1] at hr
+      simp only [c1, if_false] at hr
+      by_cases c2 : p.msgSize - 23 - (attrBytes p r nh).length = 0
+      · simp [c2] at hr
+      simp only [c2, if_false] at hr
+      by_cases hc : classic r nh = true
+      · simp only [hc, if_true] at hr
+        by_cases c3 : (packNlri p r).length ≤ p.msgSize - 23 - (attrBytes p r nh).length
+        · simp [c3] at hr
+        · simp [c3] at hr
+      · have hc' : classic r nh = false := by simpa using hc
+        simp only [hc', Bool.false_eq_true, if_false] at hr
+        by_cases c3 : (mpPayload p r nh).length + (if (mpPayload p r nh).length > 255 then 4 else 3) >
+            p.msgSize - 23 - (attrBytes p r nh).length
+        · simp [c3] at hr
+        · simp [c3] at hr
     · intro hr; cases hr
 
 /-! ## Generated tables (re-extracted from /repo on every run) against the RFCs -/
@@ -214,8 +218,19 @@ def rEx : RouteReq :=
     attrs := [.asPath [(2, [65000, 4200000000])], .communities [1966110, 655370], .med 5,
               .aggregator 70000 16909060] }
 
+/-- What the encoder sends (`[]` when it sends nothing) and what the reference decoder makes of it. -/
+def sentOf (p : SessParams) (r : RouteReq) : Bytes :=
+  match encodeExa p r with
+  | .sent b => b
+  | _ => []
+
+def decodedOf (p : SessParams) (r : RouteReq) : UpdateSem :=
+  match decodeUpdate (paramsOf p) (sentOf p r) with
+  | .ok u => u
+  | .error _ => ⟨[], [], []⟩
+
 example : WFSess pEx := by
-  refine ⟨by decide, by decide, by decide, by decide, by decide, by decide, by decide, by decide, by decide, by decide, ?_⟩
+  refine ⟨by simp [U32, pEx], by decide, by decide, by decide, by decide, by decide, by decide, by decide, by decide, by decide, ?_⟩
   intro ll h; cases h
 
 example : WFReq pEx rEx := by
@@ -230,20 +245,20 @@ example : NextHopOk pEx rEx := by
   · intro h; cases h
   · intro _; exact ⟨fun _ => rfl, fun h => by cases h⟩
 
-/-- The encoder does emit an UPDATE for it (75 bytes after the header) … -/
-example : ∃ bs, encodeExa pEx rEx = .sent bs ∧ bs.length = 112 := by
-  refine ⟨_, by decide, by decide⟩
+/-- The encoder does emit an UPDATE for it … -/
+example : encodeExa pEx rEx = .sent (sentOf pEx rEx) ∧ (sentOf pEx rEx).length = 117 := by decide
 
-/-- … which the reference decoder reads as AS_PATH [65000, 23456] + AS4_PATH [65000, 4200000000],
-    AGGREGATOR 23456 + AS4_AGGREGATOR 70000, and an ipv4 mpls-vpn route with path id 7. -/
-example : ∃ bs u, encodeExa pEx rEx = .sent bs ∧ decodeUpdate (paramsOf pEx) bs = .ok u ∧
-    rawAttr u 2 = some (.asPath [(2, [65000, 23456])]) ∧
-    rawAttr u 17 = some (.as4Path [(2, [65000, 4200000000])]) ∧
-    reportAttr (paramsOf pEx) u 2 = some (.asPath [(2, [65000, 4200000000])]) ∧
-    reportAttr (paramsOf pEx) u 7 = some (.aggregator 70000 16909060) ∧
-    (report (paramsOf pEx) u).announce =
+/-- … which the reference decoder reads as AS_PATH [65000, 23456] + AS4_PATH [65000, 4200000000]
+    (reconstructed: [65000, 4200000000]), AGGREGATOR 23456 + AS4_AGGREGATOR 70000 (reconstructed: 70000),
+    and an ipv4 mpls-vpn route with path id 7, two labels, the RD and the local address as next hop. -/
+example : decodeUpdate (paramsOf pEx) (sentOf pEx rEx) = .ok (decodedOf pEx rEx) ∧
+    rawAttr (decodedOf pEx rEx) 2 = some (.asPath [(2, [65000, 23456])]) ∧
+    rawAttr (decodedOf pEx rEx) 17 = some (.as4Path [(2, [65000, 4200000000])]) ∧
+    reportAttr (paramsOf pEx) (decodedOf pEx rEx) 2 = some (.asPath [(2, [65000, 4200000000])]) ∧
+    reportAttr (paramsOf pEx) (decodedOf pEx rEx) 7 = some (.aggregator 70000 16909060) ∧
+    (report (paramsOf pEx) (decodedOf pEx rEx)).announce =
       [(1, 128, [10, 255, 0, 1], ⟨some 7, [100, 200], [0, 0, 253, 232, 0, 0, 0, 1], 24, [10, 0, 0]⟩)] := by
-  refine ⟨_, _, by decide, by decide, by decide, by decide, by decide, by decide, by decide⟩
+  decide
 
 /-! ## Why the full statement is false of the unchanged code (each witness is replayed on /repo by
       `corpus/C01/*.json`) -/
@@ -255,55 +270,71 @@ def pPlain : SessParams :=
 def nh6 : Bytes := [32, 1, 13, 184, 0, 0, 0, 0, 0, 0, 0, 0, 0, 0, 0, 1]
 
 theorem wfsess_plain : WFSess pPlain := by
-  refine ⟨by decide, by decide, by decide, by decide, by decide, by decide, by decide, by decide, by decide, by decide, ?_⟩
+  refine ⟨by simp [U32, pPlain], by decide, by decide, by decide, by decide, by decide, by decide, by decide, by decide, by decide, ?_⟩
   intro ll h; cases h
 
-/-- `route 10.0.0.0/8 next-hop 2001:db8::1` on a session without RFC 8950: ExaBGP sends MP_REACH_NLRI
-    (AFI 1) with a 16-byte next hop, which a receiver that did not negotiate extended next hop must
-    reject (UPDATE Message Error 3/9). -/
+/-- `route 10.0.0.0/8 next-hop 2001:db8::1` -/
+def rExtNh : RouteReq :=
+  { afi := 1, safi := 1, plen := 8, pfx := [10], pathId := none, labels := [], rd := [],
+    nexthop := .v6 nh6, attrs := [] }
+
+/-- On a session without RFC 8950 ExaBGP sends it as MP_REACH_NLRI (AFI 1) with a 16-byte next hop,
+    which a receiver that did not negotiate extended next hop must reject (UPDATE Message Error 3/9). -/
 theorem c01_full_fails_ext_nexthop :
-    ∃ r bs, WFReq pPlain r ∧ encodeExa pPlain r = .sent bs ∧ decodeUpdate (paramsOf pPlain) bs = .error (3, 9) := by
-  refine ⟨{ afi := 1, safi := 1, plen := 8, pfx := [10], pathId := none, labels := [], rd := [],
-            nexthop := .v6 nh6, attrs := [] }, _, ?_, by decide, by decide⟩
+    WFReq pPlain rExtNh ∧ encodeExa pPlain rExtNh = .sent (sentOf pPlain rExtNh) ∧
+    decodeUpdate (paramsOf pPlain) (sentOf pPlain rExtNh) = .error (3, 9) := by
+  refine ⟨?_, by decide, by decide⟩
   exact ⟨by decide, by decide, by decide, ⟨by decide, by decide⟩, fun a h => by cases h⟩
 
-/-- `route 2001:db8::/32 next-hop 1.2.3.4`: an IPv6 route is sent with a 4-byte next hop (3/9). -/
+/-- `route 2001:db8::/32 next-hop 1.2.3.4` -/
+def rV4NhV6 : RouteReq :=
+  { afi := 2, safi := 1, plen := 32, pfx := [32, 1, 13, 184], pathId := none, labels := [], rd := [],
+    nexthop := .v4 [1, 2, 3, 4], attrs := [] }
+
+/-- An IPv6 route is sent with a 4-byte next hop (3/9). -/
 theorem c01_full_fails_v4_nexthop_v6_route :
-    ∃ r bs, WFReq pPlain r ∧ encodeExa pPlain r = .sent bs ∧ decodeUpdate (paramsOf pPlain) bs = .error (3, 9) := by
-  refine ⟨{ afi := 2, safi := 1, plen := 32, pfx := [32, 1, 13, 184], pathId := none, labels := [], rd := [],
-            nexthop := .v4 [1, 2, 3, 4], attrs := [] }, _, ?_, by decide, by decide⟩
+    WFReq pPlain rV4NhV6 ∧ encodeExa pPlain rV4NhV6 = .sent (sentOf pPlain rV4NhV6) ∧
+    decodeUpdate (paramsOf pPlain) (sentOf pPlain rV4NhV6) = .error (3, 9) := by
+  refine ⟨?_, by decide, by decide⟩
   exact ⟨by decide, by decide, by decide, ⟨by decide, by decide⟩, fun a h => by cases h⟩
 
 /-- The same session over IPv6 transport. -/
 def pV6 : SessParams := { pPlain with localAddr := nh6 }
 
-/-- `route 10.0.0.0/8 next-hop self` on an IPv6 session: the NEXT_HOP sent is the router id 9.9.9.9,
-    not an address of the session. -/
+/-- `route 10.0.0.0/8 next-hop self` -/
+def rSelf : RouteReq :=
+  { afi := 1, safi := 1, plen := 8, pfx := [10], pathId := none, labels := [], rd := [],
+    nexthop := .self, attrs := [] }
+
+/-- On an IPv6 session the NEXT_HOP sent for it is the router id 9.9.9.9, not an address of the session. -/
 theorem c01_full_fails_self_router_id :
-    ∃ r bs u, WFReq pV6 r ∧ r.nexthop = .self ∧ encodeExa pV6 r = .sent bs ∧
-      decodeUpdate (paramsOf pV6) bs = .ok u ∧
-      (report (paramsOf pV6) u).announce = [(1, 1, [9, 9, 9, 9], ⟨none, [], [], 8, [10]⟩)] := by
-  refine ⟨{ afi := 1, safi := 1, plen := 8, pfx := [10], pathId := none, labels := [], rd := [],
-            nexthop := .self, attrs := [] }, _, _, ?_, rfl, by decide, by decide, by decide⟩
+    WFReq pV6 rSelf ∧ encodeExa pV6 rSelf = .sent (sentOf pV6 rSelf) ∧
+    decodeUpdate (paramsOf pV6) (sentOf pV6 rSelf) = .ok (decodedOf pV6 rSelf) ∧
+    (report (paramsOf pV6) (decodedOf pV6 rSelf)).announce = [(1, 1, [9, 9, 9, 9], ⟨none, [], [], 8, [10]⟩)] := by
+  refine ⟨?_, by decide, by decide, by decide⟩
   exact ⟨by decide, by decide, by decide, trivial, fun a h => by cases h⟩
 
 /-- With the link-local next-hop capability and a local link-local address fe80::c01 … -/
 def pLL : SessParams :=
   { pPlain with linkLocal := some [254, 128, 0, 0, 0, 0, 0, 0, 0, 0, 0, 0, 0, 0, 12, 1] }
 
-/-- … `route 2001:db8::/32 next-hop 2001:db8::1 label 3 rd 65000:1` is sent with a 40-byte next hop
-    (zero RD + global + link-local); RFC 4659 §3.2.1 allows 24 or 48 (3/9). -/
+/-- `route 2001:db8::/32 next-hop 2001:db8::1 label 3 rd 65000:1` -/
+def rVpn6 : RouteReq :=
+  { afi := 2, safi := 128, plen := 32, pfx := [32, 1, 13, 184], pathId := none, labels := [3],
+    rd := [0, 0, 253, 232, 0, 0, 0, 1], nexthop := .v6 nh6, attrs := [] }
+
+/-- … it is sent with a 40-byte next hop (zero RD + global + link-local); RFC 4659 §3.2.1 allows 24 or 48 (3/9). -/
 theorem c01_full_fails_link_local_vpn :
-    ∃ r bs, WFReq pLL r ∧ encodeExa pLL r = .sent bs ∧ decodeUpdate (paramsOf pLL) bs = .error (3, 9) := by
-  refine ⟨{ afi := 2, safi := 128, plen := 32, pfx := [32, 1, 13, 184], pathId := none, labels := [3],
-            rd := [0, 0, 253, 232, 0, 0, 0, 1], nexthop := .v6 nh6, attrs := [] }, _, ?_, by decide, by decide⟩
+    WFReq pLL rVpn6 ∧ encodeExa pLL rVpn6 = .sent (sentOf pLL rVpn6) ∧
+    decodeUpdate (paramsOf pLL) (sentOf pLL rVpn6) = .error (3, 9) := by
+  refine ⟨?_, by decide, by decide⟩
   exact ⟨by decide, by decide, by decide, ⟨by decide, by decide⟩, fun a h => by cases h⟩
 
 /-- Hence the full statement does not hold of the model of the unchanged code. -/
 theorem c01_full_fails : ¬ C01Full := by
   intro h
-  obtain ⟨r, bs, hw, hsent, hdec⟩ := c01_full_fails_ext_nexthop
-  obtain ⟨u, hu, _⟩ := h pPlain r bs wfsess_plain hw hsent
+  obtain ⟨hw, hsent, hdec⟩ := c01_full_fails_ext_nexthop
+  obtain ⟨u, hu, _⟩ := h pPlain rExtNh _ wfsess_plain hw hsent
   rw [hdec] at hu
   cases hu
 
